@@ -318,24 +318,30 @@ class Gateway(Engine):
         # The actual HGI address will be discovered when the actual transport was/is
         # started up (usually before now)
 
-        tmp_protocol = protocol_factory(
-            self._msg_handler,
-            disable_sending=True,
-            enforce_include_list=enforce_include_list,
-            exclude_list=self._exclude,
-            include_list=self._include,
-        )
+        try:  # resume the engine even if the restore fails, or is cancelled
+            tmp_protocol = protocol_factory(
+                self._msg_handler,
+                disable_sending=True,
+                enforce_include_list=enforce_include_list,
+                exclude_list=self._exclude,
+                include_list=self._include,
+            )
 
-        tmp_transport = await transport_factory(
-            tmp_protocol,
-            packet_dict=packets,
-        )
+            tmp_transport = await transport_factory(
+                tmp_protocol,
+                packet_dict=packets,
+            )
 
-        await tmp_transport.get_extra_info(SZ_READER_TASK)
-        await asyncio.sleep(0)  # the last pkt is handed to its entities via call_soon()
+            try:
+                await tmp_transport.get_extra_info(SZ_READER_TASK)
+            except asyncio.CancelledError:
+                tmp_transport.close()  # don't keep replaying into a resumed engine
+                raise
+            await asyncio.sleep(0)  # the last pkt goes to its entities via call_soon()
 
-        _LOGGER.warning("GATEWAY: Restored, resuming")
-        self._resume()
+        finally:
+            _LOGGER.warning("GATEWAY: Restored, resuming")
+            self._resume()
 
     def _add_device(self, dev: Device) -> None:  # TODO: also: _add_system()
         """Add a device to the gateway (called by devices during instantiation)."""
